@@ -2,6 +2,7 @@
 import GrcovModel.Drv.C11
 import GrcovModel.Drv.C11Partial
 import GrcovModel.Drv.C11Idem
+import GrcovModel.Drv.C11Glob
 open Grcov.Drv.C11
 
 /-- part drivers first, then the property's own ops -/
@@ -13,6 +14,10 @@ def dispatch (line : String) : String :=
   | "c11.partial.info" :: args => Grcov.Drv.C11Partial.handleInfo args
   | "c11.partial.cands" :: args => Grcov.Drv.C11Partial.handleCands args
   | "c11.idem.twice" :: args => Grcov.Drv.C11Idem.handleTwice args
+  | "c11.glob.parse" :: args => Grcov.Drv.C11Glob.handleParse args
+  | "c11.glob.match" :: args => Grcov.Drv.C11Glob.handleMatch args
+  | "c11.glob.set" :: args => Grcov.Drv.C11Glob.handleSet args
+  | "c11.glob.rewrite" :: args => Grcov.Drv.C11Glob.handleRewrite args
   | _ => step line
 
 partial def loop (h : IO.FS.Stream) (out : IO.FS.Stream) : IO Unit := do
